@@ -2,7 +2,7 @@
     list, prod, unit, sumbool mapped to OCaml's; N/positive/nat stay the
     extracted datatypes; no Extract Constant). *)
 From Coq Require Import Extraction ExtrOcamlBasic.
-From Yk Require Import ListAux Word64 PermDefs VersionDefs KeyDefs ValueDefs TreeDefs ScanDefs SysDefs EpochDefs SessionDefs.
+From Yk Require Import ListAux Word64 PermDefs VersionDefs KeyDefs ValueDefs TreeDefs ScanDefs SysDefs SpecDefs EpochDefs SessionDefs.
 Extraction Language OCaml.
 Extraction "ykmodel.ml"
   N.add N.mul N.div_eucl N.eqb N.ltb N.leb N.of_nat N.to_nat
@@ -17,6 +17,6 @@ Extraction "ykmodel.ml"
   tag_value_ptr remove_ptr_flag is_value_ptr lv_get_next_layer lv_get_value lv_init value_is_inline
   leaf_ranked bt_leaves bt_id bt_ver layer_get path_of_key bytes_of_slice
   put get remove scan empty_tree null_tree
-  sys_init exec exec_all trees_get find_storage
+  sys_init exec exec_all trees_get find_storage spec_init spec_exec abs_out
   EpochDefs.step EpochDefs.run EpochDefs.init_st safe_obj has_left
   sstep srun sinit owns holds.
